@@ -32,6 +32,7 @@ HISTORIES = {
     "h3": [["1\n"], ["0\n", "1\n", "2\n"], ["0\n", "2\n", "2\n", "3\n"], ["2\n", "3\n", "4\n"]],
     "h2b": [[], ["only\n"], ["first\n", "only\n", "last\n"]],
     "h1": [["k\n", "l\n"], ["k\n"]],
+    "hdot": [["Description: x\n", " a\n"], ["Description: x\n", " a\n", " .\n", " b\n"], ["Description: y\n", " .\n", ". \n", " b\n"]],
 }
 REMOTE = "http://repo.invalid/dists/sid/main/Packages"
 LOCAL = "/var/lib/x/Packages"
@@ -160,7 +161,7 @@ def h_update(params, L: int, variant: int, fault: int, j: int, f: int):
 
 def partitions(tier, seed):
     P = []
-    hs = ("h2", "h1") if tier == "quick" else ("h2", "h3", "h2b", "h1")
+    hs = ("h2", "h1", "hdot") if tier == "quick" else ("h2", "h3", "h2b", "h1", "hdot")
     for h in hs:
         P.append(dict(name="update/%s" % h, harness="h_update", params=dict(history=h, max_f=7 if tier == "quick" else 9),
                       budget=150 if tier == "quick" else 1200,
